@@ -432,3 +432,110 @@ def check_closing_sample_shape(ix, rep, rule='R-SHAPE'):
                          'other\'s (signals fed at different rates) the operation returns the scalar in its output list and the next update raises TypeError -- `out = a + b`: '
                          'update(a=[[0,3],[1,-1]], b=[]), update(a=[], b=[[2,3],[3,0]]) returns [nan], the third update raises "\'float\' object is not subscriptable"' % ast.unparse(v)[:30], st.lineno)
     return n
+
+
+# ------------------------------------------------------------------------------------------------- R-EXC (limits of the host language)
+def _handler_types(h):
+    if h.type is None:
+        return {'BaseException'}
+    if isinstance(h.type, ast.Tuple):
+        return {ast.unparse(e).split('.')[-1] for e in h.type.elts}
+    return {ast.unparse(h.type).split('.')[-1]}
+
+
+def _raises_rtamt(body):
+    return any(isinstance(r, ast.Raise) and r.exc is not None and 'RTAMTException' in ast.unparse(r.exc) for s in body for r in ast.walk(s))
+
+
+def check_parse_limits(ix, rep, rule='R-EXC'):
+    """parse() runs a recursive-descent parser and a recursive tree visitor over a text of arbitrary nesting depth, and turns numerals of arbitrary length into
+    numbers and node names: RecursionError (400 nested parentheses), OverflowError (float(int('0x' + 'F'*257))) and ValueError (str() of a 4400-digit bound) are
+    raised by the interpreter, not by rtamt -- the entry rule and the visit of its result have to sit in a try that turns them into RTAMTException"""
+    c = ix.module(AST_MOD).classes.get('AbstractAst')
+    f = c.methods.get('parse') if c is not None else None
+    if f is None:
+        raise AnalysisError('AbstractAst.parse vanished')
+    rep.analysed(f)
+    calls = [x for x in ast.walk(f.node) if isinstance(x, ast.Call) and isinstance(x.func, ast.Attribute)
+             and ((isinstance(x.func.value, ast.Name) and x.func.value.id == 'parser') or (x.func.attr == 'visit' and isinstance(x.func.value, ast.Name) and x.func.value.id == 'self'))
+             and x.func.attr not in ('removeErrorListeners', 'addErrorListener')]
+    if len(calls) < 2:
+        raise AnalysisError('%s: entry rule / visit of its result not found' % f.where)
+    n = 0
+    for kind, wanted in (('depth', ({'RecursionError'}, {'RuntimeError'}, {'Exception'})), ('magnitude', ({'OverflowError', 'ValueError'}, {'ArithmeticError', 'ValueError'}, {'Exception'}))):
+        n += 1
+        ok = True
+        for call in calls:
+            covered = False
+            for t in ast.walk(f.node):
+                if isinstance(t, ast.Try) and any(call is x for b in t.body for x in ast.walk(b)):
+                    caught = set()
+                    for h in t.handlers:
+                        if _raises_rtamt(h.body):
+                            caught |= _handler_types(h)
+                    if any(w <= caught for w in wanted):
+                        covered = True
+            ok = ok and covered
+        slot = 'limits:%s' % kind
+        if ok:
+            rep.ok(rule, f.module.rel, f.qual, slot, '%s of the interpreter are reported as RTAMTException' % ('recursion limits' if kind == 'depth' else 'numeric limits'), f.node.lineno)
+        elif kind == 'depth':
+            rep.fail(rule, f.module.rel, f.qual, slot, 'the recursive-descent parser and the recursive visitor run outside a try that turns RecursionError into RTAMTException: '
+                     '`out = ((((...a...)))) >= 1` with 400 pairs of parentheses, or `out = not not ... (a >= 1)` with 3000 nots, raises RecursionError from parse()', calls[0].lineno)
+        else:
+            rep.fail(rule, f.module.rel, f.qual, slot, 'numerals of the text are turned into numbers and node names outside a try that turns OverflowError / ValueError into RTAMTException: '
+                     '`out = a >= 0x` + 257 F\'s raises OverflowError (float of a 1028-bit int), `always[0,` + 4400 digits + `](a>=1)` raises ValueError (str() of the bound in the node name)',
+                     calls[0].lineno)
+    return n
+
+
+def check_default_unit_domain(ix, rep, rule='R-UNITDOM'):
+    """the default unit is set through the API (`spec.unit = 'ms'`): the setter admits only keys of the unit table, otherwise the first interval of the text
+    raises KeyError from parse()"""
+    n = 0
+    cands = [ix.module(AST_MOD).classes.get('AbstractAst'), ix.find_class('rtamt.syntax.ast.parser.stl.parser_visitor', 'StlAstParserVisitor'),
+             ix.find_class('rtamt.syntax.ast.parser.ltl.parser_visitor', 'LtlAstParserVisitor')]
+    for c in [x for x in cands if x is not None]:
+      for st in c.node.body:
+        if isinstance(st, ast.FunctionDef) and st.name == 'unit' and any(ast.unparse(d).endswith('.setter') for d in st.decorator_list):
+            n += 1
+            param = st.args.args[1].arg
+            ok = False
+            for iff in ast.walk(st):
+                if isinstance(iff, ast.If) and _raises_rtamt(iff.body):
+                    t = ast.unparse(iff.test).replace(' ', '')
+                    if t in ('%snotinself.U' % param, 'not%sinself.U' % param, 'not(%sinself.U)' % param, '%snotinself.U.keys()' % param):
+                        ok = True
+            if ok:
+                rep.ok(rule, c.module.rel, c.name + '.unit', 'default-unit', 'only keys of the unit table are accepted', st.lineno)
+            else:
+                rep.fail(rule, c.module.rel, c.name + '.unit', 'default-unit', 'the setter stores any string: `spec.unit = \'min\'` followed by `out = always[0,2](a>=1)` raises KeyError(\'min\') from '
+                         'parse() (visitInterval reads self.U[unit])', st.lineno)
+    return n
+
+
+def check_nonnegative_bound(ix, rep, rule='R-GUARD-DOM'):
+    """0 <= begin: a literal cannot be negative, a declared constant can (`declare_const('c','int','-5')`, `always[c,2]`)"""
+    stl = ix.find_class('rtamt.syntax.ast.parser.stl.parser_visitor', 'StlAstParserVisitor')
+    f = stl.methods.get('visitInterval') if stl is not None else None
+    if f is None:
+        raise AnalysisError('visitInterval vanished')
+    rep.analysed(f)
+    first = None
+    for st in f.node.body:
+        if isinstance(st, ast.Assign) and isinstance(st.targets[0], ast.Tuple) and 'intervalTime(0)' in ast.unparse(st.value).replace(' ', ''):
+            first = st.targets[0].elts[0].id
+    ok = False
+    for iff in ast.walk(f.node):
+        if isinstance(iff, ast.If) and _raises_rtamt(iff.body):
+            for cmp_ in ast.walk(iff.test):
+                if isinstance(cmp_, ast.Compare) and len(cmp_.ops) == 1:
+                    l, r = ast.unparse(cmp_.left), ast.unparse(cmp_.comparators[0])
+                    if (l == first and r == '0' and isinstance(cmp_.ops[0], ast.Lt)) or (l == '0' and r == first and isinstance(cmp_.ops[0], ast.Gt)):
+                        ok = True
+    if ok:
+        rep.ok(rule, f.module.rel, f.qual, 'begin>=0', 'a negative lower bound is rejected', f.node.lineno)
+    else:
+        rep.fail(rule, f.module.rel, f.qual, 'begin>=0', 'no guard `begin < 0 -> raise RTAMTException`: a bound given by a declared constant may be negative -- declare_const(\'c\',\'int\',\'-5\'), '
+                 '`out = always[c,2](a>=1)` is accepted as always[-5,2]', f.node.lineno)
+    return 1
